@@ -237,6 +237,8 @@ class SimListProxy:
         if req.dropped:
             raise EOFError("manager connection closed")
         sim.yield_(0.0, "mgr-ack:%s" % op)
+        me.attrs["acks"] = me.attrs.get("acks", 0) + 1
+        me.attrs["lines_at_ack"] = me.lines
         if isinstance(req.result, BaseException):
             raise req.result
         return req.result
